@@ -60,6 +60,8 @@ def run():
           ('Toggle', dict(model='Line', dev='Line_3', t=0.7))]),
         ('a fault is cleared at the instant another one is applied', 1.0,
          [('Fault', dict(bus=7, tf=0.3, tc=0.5, xf=0.05)), ('Fault', dict(bus=9, tf=0.5, tc=0.6, xf=0.05))]),
+        ('an event late in a long run (relative tolerances grow with time)', 12.4,
+         [('Toggle', dict(model='Line', dev='Line_8', t=12.0)), ('Toggle', dict(model='Line', dev='Line_8', t=12.25))]),
         ('event times that are not multiples of any decimal grid', 1.2,
          [('Toggle', dict(model='Line', dev='Line_8', t=1.0 / 9.0)), ('Toggle', dict(model='Line', dev='Line_8', t=0.6180339887498949)),
           ('Fault', dict(bus=7, tf=0.3141592653589793, tc=0.3141592653589793 + 5.0 / 60.0, xf=0.05)),
